@@ -19,6 +19,8 @@ class Built:
         self.obj = {}
         self.tabowner = {}
         self.style = style or {}
+        self.raised = []  # the exception objects harness callables raised (identity is checked)
+        Pred.make_exc = self.make_exc
         self.presets = {}  # node id -> {"q": dict, "dd": dict} the dictionaries handed to labrea
         for i, nd in enumerate(nodes, start=1):
             self.obj[i] = self._build(i, nd)
@@ -34,6 +36,27 @@ class Built:
                 return True
         return False
 
+    def make_exc(self, name):
+        kind = self.style.get("exc", "user")
+        if kind == "user":
+            e = UserRaise(name)
+        elif kind == "key":
+            e = KeyError(name)
+        elif kind == "runtime":
+            e = RuntimeError(name)
+        elif kind == "evalerr":
+            from labrea.exceptions import EvaluationError
+
+            class UserEvaluationError(EvaluationError):
+                pass
+
+            e = UserEvaluationError("raised by user code: " + name, self.lab.Value(None))
+        else:
+            raise ValueError(kind)
+        e.verif_name = name
+        self.raised.append(e)
+        return e
+
     def fn(self, kind, name, owner=0):
         log = self.log
         me = self
@@ -43,7 +66,7 @@ class Built:
             args = tuple(force(a) for a in args)
             log.append((kind, name, args, owner))
             if me._raises(name, args):
-                raise UserRaise(name)
+                raise me.make_exc(name)
             return ("T", name, tuple(args))
 
         call.__name__ = "%s_%s" % (kind, name)
@@ -87,7 +110,7 @@ class Built:
                 elif dn["k"] == "tmpl" and not dn["ps"]:
                     kw["default"] = tokens_to_str(dn["s"])  # a string default is a template
                 elif dn["k"] == "fnapp" and not dn["args"]:
-                    kw["default_factory"] = self.body(dn["f"], 0)
+                    kw["default_factory"] = self.body(dn["f"], 0, d)
                 else:
                     kw["default"] = O[d]
             dom = nd["dom"]
@@ -101,12 +124,13 @@ class Built:
         if k == "tmpl":
             return L.Template(tokens_to_str(nd["s"]), **{p["name"]: O[p["n"]] for p in nd["ps"]})
         if k == "apply":
-            f = self.fn("apply", nd["f"])
+            f = self.fn("apply", nd["f"], i)
             return (O[nd["src"]] >> f) if self.style.get("rshift") else O[nd["src"]].apply(f)
         if k == "bind":
             table = [(dec(e["v"]), O[e["n"]]) for e in nd["lk"]]
             other = O[nd["other"]] if nd["other"] else None
             log = self.log
+            me_ = self
 
             def bindfn(x, _t=table, _o=other, _i=i):
                 log.append(("bindfn", _i, (x,), _i))
@@ -114,7 +138,7 @@ class Built:
                     if strict_eq(v, x):
                         return tgt
                 if _o is None:
-                    raise UserRaise("bindfn")
+                    raise me_.make_exc("bindfn")
                 return _o
 
             return O[nd["src"]].bind(bindfn)
@@ -157,7 +181,7 @@ class Built:
         if k == "fnapp":
             from labrea.application import FunctionApplication
 
-            return FunctionApplication(self.fn("body", nd["f"]), *[O[a] for a in nd["args"]])
+            return FunctionApplication(self.fn("body", nd["f"], i), *[O[a] for a in nd["args"]])
         if k == "ds":
             return self._dataset(i, nd)
         if k == "dsof":
